@@ -136,6 +136,18 @@ check("C02", "exploration",
       "runtime monitoring: differential oracle (reference object model) over exhaustive small inheritance chains",
       "DESIGN.md §3 C02")
 
+check("C05", "exploration",
+      "Builds JSON-like values (strings covering every Unicode scalar below U+0800 in quick / all 1.1M in "
+      "thorough, doubles across the whole exponent range with 1-ulp neighbours and -0, hostile keys, deep "
+      "and wide nesting, lazily built arrays, inherited objects with hidden and ::: fields), pushes each "
+      "through 4 library formats, std.manifestJson / Ex (9 indent/newline/separator variants) / Minified, "
+      "std.toString, both string concatenations, parseJson round trips and the CLI, and requires Python's "
+      "strict JSON reader to accept every text and read back the bit-identical value with keys ascending; "
+      "values containing functions must be rejected on every path.",
+      "Trusts CPython's json module (with NaN/Infinity and duplicate-key guards) and float() rounding.",
+      "runtime monitoring: independent-parser round-trip oracle over boundary-dense values on every JSON-producing path",
+      "DESIGN.md §3 C05")
+
 NOT_APPLICABLE = []
 
 
